@@ -16,7 +16,10 @@ import (
 	"fmt"
 	"math/rand"
 	"os"
+	goruntime "runtime"
 	"sort"
+	"strconv"
+	"strings"
 	"sync"
 	"time"
 
@@ -93,7 +96,9 @@ type world struct {
 	insts     []*fakeController // instance id = index + 1
 	running   map[string]int    // controller name -> instance, from the returns of Start / Stop
 	stopped   map[int]bool
-	refs      []string // composed wids some XR references
+	refs      []string        // composed wids some XR references
+	drefs     []string        // ... those referenced only by an XR that is being deleted
+	byG       map[int64]*proc // goroutine id -> the operation it runs
 	probe     *probeResult
 
 	// scheduler
@@ -108,6 +113,30 @@ type proc struct {
 	at      chan string // "gate" or "done"
 	res     opResult
 	info    map[string]any
+	pending string // a message already taken from at by an atomicity probe
+	hold2   bool   // atomicity probe: also pause at the second snapshot of this StartWatches
+	early   bool   // already released from its first gate by an atomicity probe
+}
+
+// goid is the id of the calling goroutine (the fakes are called on the goroutine of the operation).
+func goid() int64 {
+	var buf [64]byte
+	n := goruntime.Stack(buf[:], false)
+	f := strings.Fields(string(buf[:n]))
+	if len(f) < 2 {
+		return -1
+	}
+	id, _ := strconv.ParseInt(f[1], 10, 64)
+	return id
+}
+
+// me is the operation the calling goroutine runs (the scheduled one if the call comes from another goroutine).
+// Callers hold w.mu.
+func (w *world) me() *proc {
+	if p := w.byG[goid()]; p != nil {
+		return p
+	}
+	return w.procs[w.cur]
 }
 
 type opResult struct {
@@ -121,12 +150,15 @@ func (w *world) gate(point string) {
 		return
 	}
 	w.mu.Lock()
-	p := w.procs[w.cur]
+	p := w.me()
+	var rel chan struct{}
+	if p != nil {
+		rel = p.release
+	}
 	w.mu.Unlock()
 	if p == nil {
 		return
 	}
-	rel := p.release
 	p.at <- "gate:" + point
 	<-rel
 }
@@ -183,8 +215,8 @@ func (i *fakeInformer) RemoveEventHandler(reg kcache.ResourceEventHandlerRegistr
 	return nil
 }
 func (i *fakeInformer) AddIndexers(kcache.Indexers) error { return nil }
-func (i *fakeInformer) HasSynced() bool                    { return true }
-func (i *fakeInformer) IsStopped() bool                    { return false }
+func (i *fakeInformer) HasSynced() bool                   { return true }
+func (i *fakeInformer) IsStopped() bool                   { return false }
 
 type fakeCache struct {
 	cache.Cache // nil: only the Informers part is used
@@ -237,17 +269,25 @@ func (g *gatedInfs) ActiveInformers() []schema.GroupVersionKind {
 	sort.Strings(snap)
 	// Only the first snapshot of an operation is a gate: it is taken with no lock held. (The repaired
 	// StartWatches takes a second one under the controller's lock; pausing there would block everybody.)
-	first := false
+	// An atomicity probe (see replay) also pauses a caller at its second snapshot - for a moment only, to see
+	// whether another caller can get there as well.
+	first, second := false, false
 	g.w.mu.Lock()
-	if p := g.w.procs[g.w.cur]; p != nil && g.w.gated {
+	if p := g.w.me(); p != nil && g.w.gated {
 		if _, seen := p.info["snapshot"]; !seen {
 			p.info["snapshot"] = snap
 			first = true
+		} else if p.hold2 {
+			p.hold2 = false
+			second = true
 		}
 	}
 	g.w.mu.Unlock()
 	if first {
 		g.w.gate("snapshot")
+	}
+	if second {
+		g.w.gate("snapshot2")
 	}
 	return a
 }
@@ -348,7 +388,7 @@ func (e *recEngine) StopWatches(ctx context.Context, name string, ws ...engine.W
 	}
 	sort.Strings(ids)
 	e.w.mu.Lock()
-	if p := e.w.procs[e.w.cur]; p != nil && e.w.gated {
+	if p := e.w.me(); p != nil && e.w.gated {
 		p.info["gcstop"] = ids
 	}
 	e.w.mu.Unlock()
@@ -370,7 +410,11 @@ func (c *xrClient) List(_ context.Context, l client.ObjectList, _ ...client.List
 	}
 	c.w.mu.Lock()
 	refs := append([]string(nil), c.w.refs...)
-	if p := c.w.procs[c.w.cur]; p != nil && c.w.gated {
+	deleting := map[string]bool{}
+	for _, wid := range c.w.drefs {
+		deleting[wid] = true
+	}
+	if p := c.w.me(); p != nil && c.w.gated {
 		p.info["used"] = refs
 	}
 	c.w.mu.Unlock()
@@ -378,6 +422,11 @@ func (c *xrClient) List(_ context.Context, l client.ObjectList, _ ...client.List
 		u := unstructured.Unstructured{}
 		u.SetGroupVersionKind(xrGVK)
 		u.SetName(fmt.Sprintf("xr-%d", n))
+		if deleting[wid] { // deleted, but held by a finalizer: it still exists and still references its composed resources
+			ts := metav1.NewTime(time.Unix(1700000000, 0))
+			u.SetDeletionTimestamp(&ts)
+			u.SetFinalizers([]string{"composite.apiextensions.crossplane.io"})
+		}
 		g := gvkOf(wid)
 		_ = unstructured.SetNestedSlice(u.Object, []any{map[string]any{"apiVersion": g.GroupVersion().String(), "kind": g.Kind, "name": "x"}}, "spec", "resourceRefs")
 		ul.Items = append(ul.Items, u)
@@ -387,7 +436,7 @@ func (c *xrClient) List(_ context.Context, l client.ObjectList, _ ...client.List
 }
 
 func newWorld(gated bool) *world {
-	w := &world{informers: map[schema.GroupVersionKind]*fakeInformer{}, running: map[string]int{}, stopped: map[int]bool{}, procs: map[int]*proc{}, gated: gated}
+	w := &world{informers: map[schema.GroupVersionKind]*fakeInformer{}, running: map[string]int{}, stopped: map[int]bool{}, procs: map[int]*proc{}, byG: map[int64]*proc{}, gated: gated}
 	sch := runtime.NewScheme()
 	metav1.AddToGroupVersion(sch, schema.GroupVersion{Version: "v1"})
 	mgr := &electedManager{Manager: &fakes.Manager{Sch: sch}, ch: make(chan struct{})}
@@ -422,6 +471,7 @@ type step struct {
 	C   string   `json:"c"`
 	A   []string `json:"a"`
 	R   string   `json:"r"`
+	D   []string `json:"d"`
 }
 
 func errStr(err error) string {
@@ -500,6 +550,7 @@ func (w *world) exec(s step) opResult {
 		w.mu.Lock()
 		w.refs = append([]string(nil), s.A...)
 		sort.Strings(w.refs)
+		w.drefs = append([]string(nil), s.D...)
 		w.mu.Unlock()
 		return opResult{r: "ok", a: s.A}
 	}
@@ -577,16 +628,18 @@ func infoStrs(m map[string]any, k string) []any {
 }
 
 type summary struct {
-	Scenarios int            `json:"scenarios"`
-	Runs      int            `json:"runs"`
-	Steps     int            `json:"steps"`
-	Events    int            `json:"events"`
-	Drift     int            `json:"drift"`
-	DriftRuns int            `json:"drift_runs"`
-	Hung      int            `json:"hung"`
-	Stress    int            `json:"stress_runs"`
-	Counts    map[string]int `json:"counts"`
-	Samples   []any          `json:"samples"`
+	Scenarios     int            `json:"scenarios"`
+	Runs          int            `json:"runs"`
+	Steps         int            `json:"steps"`
+	Events        int            `json:"events"`
+	Drift         int            `json:"drift"`
+	DriftRuns     int            `json:"drift_runs"`
+	Hung          int            `json:"hung"`
+	Probes        int            `json:"atomicity_probes"`
+	ProbesEntered int            `json:"atomicity_probes_entered"`
+	Stress        int            `json:"stress_runs"`
+	Counts        map[string]int `json:"counts"`
+	Samples       []any          `json:"samples"`
 }
 
 // replay runs one TLC schedule deterministically.
@@ -596,6 +649,7 @@ func replay(tw *trace.Writer, id string, hist []step, sum *summary) {
 	if len(hist) > 0 && hist[0].Op == "init" {
 		w.refs = append([]string(nil), hist[0].A...)
 		sort.Strings(w.refs)
+		w.drefs = append([]string(nil), hist[0].D...)
 		hist = hist[1:]
 	}
 	emit := func(ev string, s step, p *proc, fin bool) {
@@ -618,6 +672,11 @@ func replay(tw *trace.Writer, id string, hist []step, sum *summary) {
 	emit("reset", step{Op: "reset"}, nil, false)
 	drift := 0
 	wait := func(p *proc) (string, bool) {
+		if p.pending != "" {
+			at := p.pending
+			p.pending = ""
+			return at, true
+		}
 		select {
 		case at := <-p.at:
 			return at, true
@@ -625,19 +684,26 @@ func replay(tw *trace.Writer, id string, hist []step, sum *summary) {
 			return "", false
 		}
 	}
-	for _, s := range hist {
+	release := func(p *proc) {
+		w.mu.Lock()
+		old := p.release
+		p.release = make(chan struct{})
+		w.mu.Unlock()
+		close(old)
+	}
+	for idx, s := range hist {
 		sum.Steps++
 		w.mu.Lock()
 		p := w.procs[s.P]
 		w.cur = s.P
 		w.mu.Unlock()
+		var probeQ *proc
 		if s.Seg == 1 {
 			if p != nil {
 				drift++ // the model thinks this caller is idle but its previous operation is still paused: finish it first
-				close(p.release)
+				release(p)
 				for at, ok := wait(p); ok && at != "done"; at, ok = wait(p) {
-					p.release = make(chan struct{})
-					close(p.release)
+					release(p)
 				}
 			}
 			p = &proc{id: s.P, release: make(chan struct{}), at: make(chan string, 1), info: map[string]any{}}
@@ -646,7 +712,14 @@ func replay(tw *trace.Writer, id string, hist []step, sum *summary) {
 			w.procs[s.P] = p
 			w.mu.Unlock()
 			go func(s step, p *proc) {
+				g := goid()
+				w.mu.Lock()
+				w.byG[g] = p
+				w.mu.Unlock()
 				p.res = w.exec(s)
+				w.mu.Lock()
+				delete(w.byG, g)
+				w.mu.Unlock()
 				p.at <- "done"
 			}(s, p)
 		} else {
@@ -654,15 +727,61 @@ func replay(tw *trace.Writer, id string, hist []step, sum *summary) {
 				drift++ // the real operation already finished
 				continue
 			}
-			old := p.release
-			p.release = make(chan struct{})
-			close(old)
+			if p.early {
+				p.early = false // an atomicity probe released it already
+			} else {
+				// Atomicity probe.  The model says the second segment of StartWatches (re-read the active informers,
+				// start what is missing) is atomic: it runs under the controller's lock.  When the schedule continues
+				// with the second segment of another StartWatches of the same controller, this caller is held for a
+				// moment at its second snapshot to see whether the other one can get there as well.  It cannot while
+				// the segment is lock-protected (it blocks: the probe times out and the schedule goes on as the model
+				// says); if it can, both now act on their snapshots and the monitor judges the outcome.
+				if s.Op == "StartWatches" && idx+1 < len(hist) {
+					if n := hist[idx+1]; n.Op == "StartWatches" && n.Seg == 2 && n.C == s.C && n.P != s.P {
+						w.mu.Lock()
+						if q := w.procs[n.P]; q != nil && !q.early {
+							probeQ = q
+							p.hold2 = true
+						}
+						w.mu.Unlock()
+					}
+				}
+				release(p)
+			}
 		}
 		at, ok := wait(p)
+		blocked := false
+		if ok && at == "gate:snapshot2" {
+			if probeQ != nil {
+				sum.Probes++
+				w.mu.Lock()
+				probeQ.hold2, probeQ.early = true, true
+				w.mu.Unlock()
+				release(probeQ)
+				select {
+				case atq := <-probeQ.at:
+					probeQ.pending = atq
+					sum.ProbesEntered++ // two callers inside the segment
+				case <-time.After(30 * time.Millisecond):
+					blocked = true
+				}
+				w.mu.Lock()
+				probeQ.hold2 = false
+				w.mu.Unlock()
+			}
+			release(p)
+			at, ok = wait(p)
+		}
+		if ok && blocked {
+			// the other caller was waiting for the lock and runs now: let it come to rest before the state is recorded
+			if atq, okq := wait(probeQ); okq {
+				probeQ.pending = atq
+			}
+		}
 		if !ok {
 			sum.Hung++
 			emit("hung", s, p, false)
-			fmt.Fprintf(os.Stderr, "scenario %s: step %+v did not reach a gate or finish within 20s\n", id, s)
+			fmt.Fprintf(os.Stderr, "scenario %s: step %+v did not reach a gate or finish within 10s\n", id, s)
 			return
 		}
 		fin := at == "done"
